@@ -49,7 +49,9 @@ def mstep (m : M) : Op → M
   | .defrag _ => m
   | .sync => m
   | .noSync => m
-  | .reopen _ _ _ => m          -- values survive; which flags survive is decided by what was persisted
+  | .reopen _ _ _ => m          -- an in-memory map keeps values AND flags. The store keeps the values (qdb_refines_map /
+                                -- qdb_durable) but NOT a flag word changed since the record's last persist: known finding
+                                -- Props.C19.flag_change_not_durable_counterexample
 
 def mrun (m : M) (ops : List Op) : M := ops.foldl mstep m
 
